@@ -195,6 +195,25 @@ class Node:
             out = call(self.C.Context.fromjson, self._path(cmd), **kw)
         return self._store(cmd, out)
 
+    def do_fmt_subclass(self, cmd):
+        """User code derives its own format from a shipped one (the metaclass registers it by name);
+        the shipped formats and the suffix inference must go on working as before."""
+        F = self.C.formats
+        self._nsub = getattr(self, '_nsub', 0) + 1
+        name = f'My{cmd["which"].title().replace("_", "")}{self._nsub}'
+
+        def go():
+            if cmd['which'] == 'csv_tab':
+                return type(name, (F.Csv,), {'dialect': 'excel-tab'})
+            if cmd['which'] == 'cxt_alt':
+                sym = {False: '-', True: '+'}
+                return type(name, (F.Cxt,), {'symbols': sym, 'values': {v: k for k, v in sym.items()}})
+            if cmd['which'] == 'table_alt':
+                return type(name, (F.Table,), {'dumps_rstrip': False, 'encoding': 'latin-1'})
+            return type(name, (F.PythonLiteral,), {'encoding': 'utf-16'})
+        out = call(go)
+        return {'ok': True, 'name': out.value.name} if out.ok else _err(out)
+
     def do_tofile(self, cmd):
         x = self.slots[cmd['slot']]
         kw = _kwargs(cmd.get('kwargs', {}))
